@@ -641,7 +641,9 @@ func buildSpecial(sc *scene, prof chainlab.Profile) {
 			y = t.ExtendHeaderOnly(y)
 		}
 		sc.bTip = y
-		sc.hTip = p2plab.Heavier(t, p2plab.GrowMixed(t, base, 8+sc.rng.IntN(8), 3, prof), 1, prof, base)
+		// the attackers' 99 valid blocks may legitimately be adopted; the honest
+		// chain must outweigh them
+		sc.hTip = p2plab.Heavier(t, p2plab.GrowMixed(t, base, 104+sc.rng.IntN(8), 6, prof), 1, prof, base, par)
 	}
 	cc.VictimTip, cc.VictimHeight = sc.vTip.Idx, sc.vTip.Height
 	cc.HonestTip, cc.HonestHeight = sc.hTip.Idx, sc.hTip.Height
